@@ -698,6 +698,15 @@ pub mod arc_side {
     }
 }
 
+/// the rc side of the differential for programs that may exhaust memory (worker mode `rc-run`)
+pub fn worker_rc_run(src: &str) -> String {
+    let cfg = crate::run::RunCfg::default();
+    match std::panic::catch_unwind(|| crate::run::run_script(src, &cfg)) {
+        Ok(obs) => format!("{}\u{1}{}", obs.stdout.replace('\n', "\u{2}"), outcome_text(&obs.outcome)),
+        Err(_) => "\u{1}panic".to_string(),
+    }
+}
+
 pub fn outcome_text(o: &crate::run::Outcome) -> String {
     use crate::run::Outcome::*;
     match o {
@@ -713,6 +722,38 @@ pub fn outcome_text(o: &crate::run::Outcome) -> String {
 
 // ---------------------------------------------------------------------------------------------
 // orchestration (rc build)
+
+/// callbacks (and overloaded comparison operators) that read or mutate the container whose
+/// core-library function is running them: product of callback-taking functions x effects
+fn reentrant_programs() -> Vec<String> {
+    let mut out = vec![];
+    let list_effects = ["size l", "l.push 9", "l.pop()", "l.clear()", "l.sort()", "l.extend l", "l.to_tuple()", "l[0] = 5", "l.insert 0, 7", "l.iter().next()", "koto.copy l", "l == l", "'{l}'", "l.reverse()", "l.resize 1, 0"];
+    let list_calls = [
+        "l.sort cb", "l.transform cb", "l.retain pb", "l.each(cb).to_list()", "l.keep(pb).to_list()", "l.fold 0, fb", "l.find pb", "l.any pb", "l.all pb", "l.position pb", "l.consume cb", "l.min cb", "l.max cb", "l.min_max cb",
+        "l.iter().each(cb).count()", "l.each(cb).reversed().to_list()", "l.chunks(2).each(cb).to_list()", "l.zip(l.each cb).to_list()", "l.fill cb", "l.sort(cb).to_tuple()",
+    ];
+    for e in list_effects {
+        for c in list_calls {
+            out.push(format!("l = [3, 1, 2]\ncb = |x|\n  {e}\n  x\npb = |x|\n  {e}\n  true\nfb = |a, x|\n  {e}\n  a\ntry\n  r = {c}\n  print r\ncatch err\n  print 'error'\nprint l\n"));
+        }
+        // overloaded comparison operators running under sort / min / max
+        for c in ["l.sort()", "l.min()", "l.max()", "l.min_max()", "l.sort |x| x", "l.contains l[0]", "l == [l[0], l[1]]"] {
+            out.push(format!(
+                "l = []\nmk = |n|\n  n: n\n  @<: |o|\n    {e}\n    self.n < o.n\n  @==: |o|\n    {e}\n    self.n == o.n\n  @display: || 'o{{self.n}}'\nl.push mk 2\nl.push mk 1\nl.push mk 3\ntry\n  r = {c}\n  print r\ncatch err\n  print 'error'\nprint l\n"
+            ));
+        }
+    }
+    let map_effects = ["size m", "m.insert 'z', 1", "m.remove 'a'", "m.clear()", "m.sort()", "m.extend m", "m.keys().to_list()", "m.a = 5", "'{m}'", "koto.copy m", "m == m", "m.get 'a'", "m[0] = ('q', 1)"];
+    let map_calls = ["m.sort kb", "m.update 'a', cb", "m.update 'n', 0, cb", "m.each(pairb).to_list()", "m.keep(pairp).to_map()", "m.fold 0, fb", "m.find pairp", "m.any pairp", "m.keys().each(cb).to_list()", "m.values().each(cb).to_list()", "m.consume pairb", "m.min pairb"];
+    for e in map_effects {
+        for c in map_calls {
+            out.push(format!(
+                "m = {{a: 1, b: 2}}\ncb = |x|\n  {e}\n  x\nkb = |k, v|\n  {e}\n  v\npairb = |p|\n  {e}\n  p\npairp = |p|\n  {e}\n  true\nfb = |a, x|\n  {e}\n  a\ntry\n  r = {c}\n  print r\ncatch err\n  print 'error'\nprint m\n"
+            ));
+        }
+    }
+    out
+}
 
 pub fn run(args: &Args) -> i32 {
     install_quiet_panic_hook();
@@ -856,10 +897,20 @@ pub fn run(args: &Args) -> i32 {
     }
     sources.sort();
     sources.dedup();
-    let rc_obs = par_shards_big_stack(sources.len(), 64 << 20, |i| {
+    let mut rc_obs = par_shards_big_stack(sources.len(), 64 << 20, |i| {
         let obs = crate::run::run_script(&sources[i], &crate::run::RunCfg::default());
         format!("{}\u{1}{}", obs.stdout.replace('\n', "\u{2}"), outcome_text(&obs.outcome))
     });
+    // re-entrant callbacks can grow a container without bound: both sides run in memory-limited workers
+    let reentrant = reentrant_programs();
+    let re_rc = crate::workers::run_pool("rc-run", &reentrant, threads(), std::time::Duration::from_secs(10), 2_000_000);
+    for (src, a) in reentrant.iter().zip(re_rc.iter()) {
+        sources.push(src.clone());
+        rc_obs.push(match a {
+            crate::workers::WorkerAnswer::Line(l) => l.replace("\\n", "\n"),
+            other => format!("{other:?}"),
+        });
+    }
     let arc_obs = crate::workers::run_pool_exe(ARC_EXE, "arc-run", &sources, threads(), std::time::Duration::from_secs(10), 2_000_000);
     let mut differential = 0u64;
     let mut diff_distinct: HashSet<u64> = HashSet::new();
@@ -870,6 +921,12 @@ pub fn run(args: &Args) -> i32 {
             crate::workers::WorkerAnswer::Line(l) => l.replace("\\n", "\n"),
             other => format!("{other:?}"),
         };
+        if r.contains("Panic") || r.contains("panic") {
+            let call = src.lines().find(|l| l.starts_with("  r = ")).unwrap_or("").trim().to_string();
+            let lines: Vec<&str> = src.lines().collect();
+            let eff = lines.iter().position(|l| l.starts_with("cb = |x|") || l.trim_start().starts_with("@<: |o|")).and_then(|i| lines.get(i + 1)).map(|l| l.trim().to_string()).unwrap_or_default();
+            report.fail(None, format!("[reentrancy] the rc build panics: `{call}` while its callback / comparison does `{eff}`"), format!("rc observes {:?}\n--- program ---\n{src}", readable(r)));
+        }
         if *r != a_text {
             report.fail(
                 None,
